@@ -128,6 +128,8 @@ struct RelRef {
     spelling: Spelling,
     text: String,
     hot: bool,
+    /// index of the statement (within the message) the slot belongs to
+    stmt: usize,
 }
 
 const LISTABLE: [&str; 6] = ["pg_user", "pg_roles", "pg_database", "secrets", "accounts", "t_priv"];
@@ -141,9 +143,13 @@ struct LabelNames {
     hot_budget: usize,
     skip: usize,
     decoys: bool,
+    cur_stmt: usize,
 }
 
 impl Names for LabelNames {
+    fn begin_statement(&mut self, idx: usize) {
+        self.cur_stmt = idx;
+    }
     fn rel(&mut self, rng: &mut Rng, pos: Pos) -> String {
         let want_hot = if self.skip > 0 {
             self.skip -= 1;
@@ -185,7 +191,7 @@ impl Names for LabelNames {
             render(rng, &name, sp)
         };
         let hot = kind == Kind::Listed && sp.same_relation();
-        self.refs.push(RelRef { pos, kind, spelling: sp, text: text.clone(), hot });
+        self.refs.push(RelRef { pos, kind, spelling: sp, text: text.clone(), hot, stmt: self.cur_stmt });
         text
     }
     fn col(&mut self, rng: &mut Rng) -> String {
@@ -263,6 +269,7 @@ fn table_access_part(thorough: bool, seed: u64) -> Acc {
                 hot_budget,
                 skip: rng.below(4),
                 decoys: rng.chance(1, 2),
+                cur_stmt: 0,
             };
             let msg = gen::message(&mut rng, &mut names);
             let refs = names.refs.clone();
@@ -357,19 +364,37 @@ fn table_access_part(thorough: bool, seed: u64) -> Acc {
                 match (expect_deny, got.as_str()) {
                     (true, "deny") => {
                         acc.count("deny_ok");
-                        for r in &hot {
-                            acc.count(&format!("denied_ok:{}|{}", r.pos.name(), r.spelling.name()));
+                        if hot.len() == 1 {
+                            // only then is it known WHICH reference triggered the denial
+                            acc.count(&format!("denied_ok:{}|{}", hot[0].pos.name(), hot[0].spelling.name()));
                         }
                     }
                     (false, "allow") => acc.count("allow_ok"),
                     (true, _) => {
+                        // Attribution only (the verdict above is label-based): if the parser
+                        // produced fewer statements than were generated, the last parsed
+                        // statement swallowed the following ones (sqlparser does that for
+                        // `SHOW x; ...` and `COPY t FROM STDIN; ...`); references in the
+                        // swallowed statements are reported under that cause, not under
+                        // their own position/spelling.
+                        let swallower = if ast.len() < msg.stmts.len() { Some(ast.len() - 1) } else { None };
                         for r in &hot {
-                            let sig = format!("C19|table_access|pos={}|spelling={}|expected=deny|got={}", r.pos.name(), r.spelling.name(), got);
+                            let hidden = matches!(swallower, Some(i) if r.stmt > i);
+                            let sig = if hidden {
+                                format!(
+                                    "C19|table_access|cause=statements_after_{}_invisible_to_parser|expected=deny|got={}",
+                                    msg.stmts[swallower.unwrap()].class, got
+                                )
+                            } else {
+                                format!("C19|table_access|pos={}|spelling={}|expected=deny|got={}", r.pos.name(), r.spelling.name(), got)
+                            };
                             let desc = format!(
-                                "tables = {:?}: `{}` refers to listed table via `{}` ({} position, spelling {}) but execute_plugins returned {} ({} message)",
-                                tables, msg.sql, r.text, r.pos.name(), r.spelling.name(), got, proto
+                                "tables = {:?}: `{}` refers to listed table via `{}` ({} position, spelling {}, statement #{}{}) but execute_plugins returned {} ({} message)",
+                                tables, msg.sql, r.text, r.pos.name(), r.spelling.name(), r.stmt + 1,
+                                if hidden { format!("; the parser produced only {} statement(s) for the {} sent", ast.len(), msg.stmts.len()) } else { String::new() },
+                                got, proto
                             );
-                            acc.violation(sig, desc, witness(json!({"missed_reference": r.text})));
+                            acc.violation(sig, desc, witness(json!({"missed_reference": r.text, "parsed_statements": ast.len(), "sent_statements": msg.stmts.len()})));
                         }
                     }
                     (false, "deny") => {
